@@ -278,6 +278,7 @@ func TestSrvSeq(t *testing.T) {
 		c := GenSrvConf(r)
 		synctest.Test(t, func(t *testing.T) { srvScript(t, r, s, c, nil) })
 	}
+	shrinkSrvFindings(t, s, 6, 80) // minimise the histories of (the first few) findings before they become replays
 }
 
 type scriptStep struct {
